@@ -14,7 +14,7 @@ import (
 func init() { Registry["C09"] = checkC09 }
 
 func checkC09(p *core.Prog, r *core.Report) {
-	r.Explanation = "Decides structural necessary conditions of exact log shipping: (R1) ReplicationBufferQueue.Pop returns success only when the item it hands out continues the cursor (fresh/recycled cursor: item.seq - cursor.seq == 1, or the first item, or an unset cursor; live cursor: item.seq == cursor.seq before advancing); every other path returns a non-nil error ('out of buf'), so a recycled item under a lagging cursor is never silently followed; (R2) handleInitSync answers an unknown position with ERR_NOT_FOUND unless it is exactly the manager's current position, and refuses ids with file index 0; (R3) the follower reacts to ERR_NOT_FOUND by zeroing its position and re-requesting a full transfer; (R4) Aof.PushLock publishes every record to the ring after the file write attempt on every path, taking the ring mutex before releasing the append mutex (file order = ring order); (R5) ReplicationClient.Process hands every decoded record to its three pipelines (replay, append, re-publish) exactly once each in that order, and every exit sends the nil terminator to all three; (R6) the full-transfer bound: with an empty ring the transfer stops one past the last persisted record (offset + 1), and sendFiles stops at the first record at or past the bound. (R7) the follower's receive ring is at least two buffers larger than each pipeline queue's capacity, so a record still queued is never overwritten. NOT decided: ring overflow behaviour under slow followers, reconnect races, convergence of snapshots."
+	r.Explanation = "Decides structural necessary conditions of exact log shipping: (R1) ReplicationBufferQueue.Pop returns success only when the item it hands out continues the cursor (fresh/recycled cursor: item.seq - cursor.seq == 1, or the first item, or an unset cursor; live cursor: item.seq == cursor.seq before advancing); every other path returns a non-nil error ('out of buf'), so a recycled item under a lagging cursor is never silently followed; (R2) handleInitSync answers an unknown position with ERR_NOT_FOUND unless it is exactly the manager's current position, and refuses ids with file index 0; (R3) the follower reacts to ERR_NOT_FOUND by zeroing its position and re-requesting a full transfer; (R4) Aof.PushLock publishes every record to the ring after the file write attempt on every path, taking the ring mutex before releasing the append mutex (file order = ring order); (R5) ReplicationClient.Process hands every decoded record to its three pipelines (replay, append, re-publish) exactly once each in that order, and every exit sends the nil terminator to all three; (R6) the full-transfer bound: with an empty ring the transfer stops one past the last persisted record (offset + 1), and sendFiles stops at the first record at or past the bound. (R7) the follower's receive ring is at least two buffers larger than each pipeline queue's capacity, so a record still queued is never overwritten. (R9) the ring accepts a resume position only after examining all 16 bytes of the follower's log id. NOT decided: ring overflow behaviour under slow followers, reconnect races, convergence of snapshots."
 	r.Assumptions = []string{"Go type checker and go/ssa are correct for /repo"}
 	c09R1(p, r)
 	c09R2(p, r)
@@ -24,6 +24,7 @@ func checkC09(p *core.Prog, r *core.Report) {
 	c09R6(p, r)
 	c09R7(p, r)
 	c09R8(p, r)
+	c09R9(p, r)
 }
 
 func c09R1(p *core.Prog, r *core.Report) {
@@ -485,5 +486,87 @@ func c09R8(p *core.Prog, r *core.Report) {
 		} else {
 			r.Hold(rule, k, o.pos, "append mutex held in every context")
 		}
+	}
+}
+
+// c09R9: a reconnecting follower is resumed from the ring only if the ring
+// holds the record it names. The name is the full 16-byte log id (offset, file
+// index and command time): two leader histories reuse (file index, offset)
+// pairs, so a position that matches in only part of the id belongs to a
+// different history and the follower must be resynced from scratch instead.
+// Structurally: ReplicationBufferQueue.Search returns success only on paths
+// that read all 16 bytes of the id it was given.
+func c09R9(p *core.Prog, r *core.Report) {
+	const rule = "C09/R9"
+	r.Rule(rule, "ReplicationBufferQueue.Search accepts a ring position only after examining all 16 bytes of the follower's log id", 1)
+	fn := mustFunc(p, r, "server.(*ReplicationBufferQueue).Search")
+	if fn == nil || len(fn.Params) < 2 {
+		return
+	}
+	// the by-value array parameter is spilled to a local cell
+	var cell *ssa.Alloc
+	for _, b := range fn.Blocks {
+		for _, ins := range b.Instrs {
+			if st, ok := ins.(*ssa.Store); ok && st.Val == ssa.Value(fn.Params[1]) {
+				if al, ok := st.Addr.(*ssa.Alloc); ok {
+					cell = al
+				}
+			}
+		}
+	}
+	n := 0
+	ex := core.NewExplorer(p, core.Hooks{
+		Instr: func(x *core.X) {
+			if !x.Top() {
+				return
+			}
+			switch t := x.Ins.(type) {
+			case *ssa.IndexAddr:
+				if cell != nil && t.X == ssa.Value(cell) {
+					if c, ok := t.Index.(*ssa.Const); ok && c.Value != nil {
+						x.Set("rd:"+c.Value.ExactString(), "1")
+					}
+				}
+			case *ssa.Index:
+				if t.X == ssa.Value(fn.Params[1]) {
+					if c, ok := t.Index.(*ssa.Const); ok && c.Value != nil {
+						x.Set("rd:"+c.Value.ExactString(), "1")
+					}
+				}
+			case *ssa.BinOp:
+				// whole-array comparison
+				if (t.Op.String() == "==" || t.Op.String() == "!=") && (t.X == ssa.Value(fn.Params[1]) || t.Y == ssa.Value(fn.Params[1])) {
+					for i := 0; i < 16; i++ {
+						x.Set(fmt.Sprintf("rd:%d", i), "1")
+					}
+				}
+			}
+		},
+		Exit: func(x *core.X, rets []core.Expr) {
+			if len(rets) != 1 || rets[0].S != "nil" {
+				return
+			}
+			n++
+			cnt := 0
+			for i := 0; i < 16; i++ {
+				if x.Get(fmt.Sprintf("rd:%d", i)) == "1" {
+					cnt++
+				}
+			}
+			key := "server.(*ReplicationBufferQueue).Search: accept"
+			if cnt == 16 {
+				r.Hold(rule, key, x.Pos(), "all 16 id bytes examined")
+			} else {
+				r.Violate(rule, key, x.Pos(), fmt.Sprintf("a ring position is accepted after examining only %d of the 16 bytes of the follower's log id: a follower of a different history whose (file, offset) happens to exist in the ring is resumed instead of resynced and keeps a log that is not the leader's", cnt), x.St.Trace)
+			}
+		},
+	})
+	ex.NoHist = true
+	ex.Run(fn, nil)
+	if ex.Imprecise != "" {
+		r.Fail("C09/R9: %s", ex.Imprecise)
+	}
+	if n == 0 {
+		r.Fail("C09/R9: Search has no successful return")
 	}
 }
